@@ -1,7 +1,7 @@
 (* Truncation of a CAR stream: every proper prefix of what the writer produced is either refused, or - when
    the cut falls exactly between two sections - read as exactly the blocks before the cut. *)
 From Coq Require Import String.
-Require Import Base Node Cbor CborProofs Varint Base64 Container ContainerProofs.
+Require Import Base Node Cbor CborProofs Varint Base64 Container ContainerProofs Generated.
 From Coq Require Import ZifyBool ZifyNat ZifyN.
 Local Open Scope N_scope.
 
@@ -27,18 +27,18 @@ Proof.
   - (* the cut is inside the payload (or right after the length) *)
     subst p. unfold ld_read. destruct (to_uvarint (N.of_nat (length d)) ++ m) eqn:Es.
     { pose proof (to_uvarint_nonempty (N.of_nat (length d))). destruct (to_uvarint _); [congruence|discriminate]. }
-    rewrite <- Es. unfold max_section in *. rewrite go_read_to_uvarint by lia.
+    rewrite <- Es. pose proof max_section_bound as Hcap. rewrite go_read_to_uvarint by lia.
     destruct (N.eqb_spec (N.of_nat (length d)) 0); [eauto|].
-    destruct (N.ltb_spec 33554432 (N.of_nat (length d))); [eauto|].
+    destruct (N.ltb_spec max_section (N.of_nat (length d))); [eauto|].
     destruct (N.ltb_spec (N.of_nat (length m)) (N.of_nat (length d))); [eauto|].
     exfalso. rewrite Eq, app_length in *. destruct q; [congruence|cbn in *; lia].
   - (* the cut is inside the length prefix *)
     destruct m as [|c m].
     + rewrite app_nil_r in Ev. subst p. cbn in Ed. subst q. unfold ld_read.
       destruct (to_uvarint (N.of_nat (length d))) eqn:Es; [congruence|]. rewrite <- Es.
-      unfold max_section in *. rewrite <- (app_nil_r (to_uvarint _)), go_read_to_uvarint by lia.
+      pose proof max_section_bound as Hcap. rewrite <- (app_nil_r (to_uvarint _)), go_read_to_uvarint by lia.
       destruct (N.eqb_spec (N.of_nat (length d)) 0); [eauto|].
-      destruct (N.ltb_spec 33554432 (N.of_nat (length d))); [eauto|].
+      destruct (N.ltb_spec max_section (N.of_nat (length d))); [eauto|].
       destruct (N.ltb_spec (N.of_nat (@length N [])) (N.of_nat (length d))); [eauto|]. cbn in *. lia.
     + unfold ld_read. destruct p as [|b p]; [congruence|]. unfold go_read_uvarint.
       rewrite (go_uvarint_cut 10 (N.of_nat (length d)) 0 1 0 (b :: p) (c :: m) Ev) by (try discriminate; lia). eauto.
@@ -130,5 +130,36 @@ Section Cut.
     intros Hok E Hq. unfold read_car. destruct (car_cut blobs p q Hok E Hq) as [(k & Hk & Hp & Hc)|(e & He)].
     - left. exists k. rewrite Hc. auto.
     - right. exists e. rewrite He. reflexivity.
+  Qed.
+  (* the lengths of the sections of a written CAR, header first *)
+  Definition section_lengths (blobs : list str) : list N :=
+    N.of_nat (length (ld_write car_header)) :: map (fun d => N.of_nat (length (sec d))) blobs.
+
+  Lemma at_boundary_prefix : forall (ls : list N) acc j, (j < length ls)%nat ->
+    at_boundary ls acc (acc + fold_right N.add 0 (firstn (S j) ls)) = true.
+  Proof.
+    induction ls as [|l r IH]; intros acc j Hj; [cbn in Hj; lia|].
+    cbn [at_boundary]. destruct j as [|j].
+    - cbn [firstn fold_right]. rewrite N.add_0_r, N.eqb_refl. reflexivity.
+    - cbn [length] in Hj. change (firstn (S (S j)) (l :: r)) with (l :: firstn (S j) r). cbn [fold_right].
+      rewrite N.add_assoc, (IH (acc + l) j) by lia. apply Bool.orb_true_r.
+  Qed.
+
+  Lemma length_write_car blobs :
+    N.of_nat (length (write_car sha256 blobs)) = fold_right N.add 0 (section_lengths blobs).
+  Proof.
+    unfold write_car, section_lengths. rewrite app_length, Nat2N.inj_add. cbn [fold_right]. f_equal.
+    induction blobs as [|d r IH]; [reflexivity|]. cbn [map concat fold_right]. rewrite app_length, Nat2N.inj_add, IH. reflexivity.
+  Qed.
+
+  (* whatever prefix of a written CAR the reader accepts ends exactly at the end of a section *)
+  Theorem accepted_prefix_ends_at_a_section blobs p q m : Forall block_ok blobs -> write_car sha256 blobs = p ++ q -> q <> [] ->
+    read_car sha256 mh_sum tok unseal p = Ok m -> at_boundary (section_lengths blobs) 0 (N.of_nat (length p)) = true.
+  Proof.
+    intros Hok E Hq Hr. destruct (read_car_cut blobs p q Hok E Hq) as [(k & Hk & Hp & _)|(e & He)]; [|congruence].
+    rewrite Hp, length_write_car. unfold section_lengths at 2. rewrite <- (N.add_0_l (fold_right _ _ _)).
+    replace (N.of_nat (length (ld_write car_header)) :: map (fun d => N.of_nat (length (sec d))) (firstn k blobs))
+      with (firstn (S k) (section_lengths blobs)) by (unfold section_lengths; cbn [firstn]; rewrite firstn_map; reflexivity).
+    apply at_boundary_prefix. unfold section_lengths. cbn [length]. rewrite map_length. lia.
   Qed.
 End Cut.
